@@ -4,7 +4,7 @@ import PySMT.Gen.PendingPop
 # Model of `IncrementalTrackingSolver` and of the `pending_pop` protocol (pysmt/solvers/solver.py, decorators.py)
 
 * `Solver.is_sat` (solver.py:91-134, incremental branch): `push()`, `add_assertion(f)`, `solve()`,
-  `pending_pop = True` (set in a `finally`; the native check is assumed not to raise) — or `solve([f])` when `push` is not implemented.  `is_valid f = not is_sat(Not f)`,
+  `pending_pop = True` (set in a `finally`, so also when `add_assertion` or `solve` raises: `isSatFails`) — or `solve([f])` when `push` is not implemented.  `is_valid f = not is_sat(Not f)`,
   `is_unsat f = not is_sat f` (:132-155).
 * `clear_pending_pop` (decorators.py:48-66): `if self.pending_pop: self.pending_pop = False; self.pop()`,
   then the decorated function.
@@ -21,7 +21,9 @@ the proxy counts; for a direct subclass of `Solver`: the decorator on the public
 
 The native solver is modelled as an ideal SMT-LIB assertion stack (`native`, innermost level first) that
 raises on an illegal `pop`.  `checks` logs the assertion set each native check-sat ran on.
-`_last_command` / `_last_result` are not modelled (they do not influence the assertion list).  The
+`_last_command` / `_last_result` are not modelled (they do not influence the assertion list).
+A native call of a query may raise (`Op.solveFails`, `Op.oneshotFails`): the client catches the exception and goes
+on using the solver, so the run continues from the state the exception left behind.  The
 non-incremental branch of `is_sat` (options.incremental = False; the solver is single-use by design) is not
 modelled.
 -/
@@ -135,6 +137,29 @@ def isSat (cfg : Config) (f : Nat) (st : St) : Except Err St :=
     .ok { st with pending := true }
   else solve cfg (some f) st
 
+/-- `Solver.is_sat` when one of its native calls raises (solver.py:126-132: `try: add_assertion; solve  finally:
+    pending_pop = True`).  `fail = .add`: the decorated `add_assertion` is entered (its prologue runs) and raises
+    before anything is asserted; `fail = .solve`: the check runs and raises `SolverReturnedUnknownResultError`.
+    Either way the exception reaches the caller with `pending_pop` set.  Without `push` the query is `solve([f])`:
+    nothing is asserted, so only the check can raise. -/
+def isSatFails (cfg : Config) (fail : Fail) (f : Nat) (st : St) : Except Err St :=
+  if cfg.pushSupported then
+    seq (push cfg 1 st) fun st =>
+    match fail with
+    | .add => seq (enter cfg cfg.dAdd st) fun st => .ok { st with pending := true }
+    | .solve =>
+      seq (add cfg f st) fun st =>
+      seq (solve cfg none st) fun st =>
+      .ok { st with pending := true }
+  else solve cfg (some f) st
+
+/-- does the call end with an exception that the client is expected to catch? -/
+def raises (cfg : Config) : Op → Bool
+  | .solveFails => true
+  | .oneshotFails .assuming fail _ => fail == .solve
+  | .oneshotFails _ fail _ => cfg.pushSupported || fail == .solve
+  | _ => false
+
 /-- the formula `Not f` handed to `is_sat` by `is_valid`; formulas are opaque numbers, the harness uses even
     numbers for atoms and `2a+1` for the negation of atom `2a`. -/
 def negOf (f : Nat) : Nat := f + 1
@@ -153,6 +178,12 @@ def step (cfg : Config) (st : St) : Op → Except Err St
   | .oneshot .isValid f => isSat cfg (negOf f) st
   | .oneshot .assuming f => solve cfg (some f) st
   | .read => read cfg st
+  -- `solve()` that raises: the decorated `_solve` ran its prologue and the check; nothing else changes
+  | .solveFails => solve cfg none st
+  | .oneshotFails .isSat fail f => isSatFails cfg fail f st
+  | .oneshotFails .isUnsat fail f => isSatFails cfg fail f st
+  | .oneshotFails .isValid fail f => isSatFails cfg fail (negOf f) st
+  | .oneshotFails .assuming _ f => solve cfg (some f) st
 
 def runFrom (cfg : Config) : St → List Op → Except Err St
   | st, [] => .ok st
